@@ -136,7 +136,13 @@ def gen_handshake(rng):
         dev["timing"] = "absent"
         dev["identity"] = "silent"
     elif c == 3:
-        board["product"] = rng.choice(NON_EBB) + " "
+        if rng.random() < 0.4:
+            # a complete, parseable version line of another product (the version follows directly)
+            board["product"] = rng.choice(["WebbControl CNC Firmware Version ", "ebb-clone Firmware Version ",
+                                           "Pebble Firmware Version ", "eBb Firmware Version ",
+                                           "Arduino Firmware Version ", "E B B Firmware Version "])
+        else:
+            board["product"] = rng.choice(NON_EBB) + " "
         dev["identity"] = "non-EBB"
     elif c == 4:
         text = rng.choice(HALF_EBB)
